@@ -7,6 +7,8 @@ import XrsVerif.Gen.Blocks
 import XrsVerif.Gen.Reductions
 import XrsVerif.Gen.Focal
 import XrsVerif.Gen.Effects
+import XrsVerif.Gen.GraphKeys
+import XrsVerif.Proofs.GraphKeys
 import XrsVerif.Proofs.Effects
 import Mathlib.Algebra.Order.Field.Rat
 /-
@@ -23,7 +25,11 @@ import Mathlib.Algebra.Order.Field.Rat
   (the property grants it).  Scheduler independence: `Core/Dataflow.lean` (`schedule_independent`) for
   graphs of *pure* tasks; that every function this library hands to dask *is* pure -- writes no shared
   state, reads none that anybody writes -- is decided on the generated effect summaries
-  (`Gen/Effects.lean`, section 6: `all_block_functions_pure`).
+  (`Gen/Effects.lean`, section 6: `all_block_functions_pure`).  `DF.Graph` numbers its tasks, i.e. it assumes that
+  different tasks have different keys; a dask graph is a dictionary, and several lazy results evaluated together are
+  evaluated in the merge of their dictionaries.  Section 6b makes that assumption explicit (`Proofs/GraphKeys.lean`)
+  and discharges the library's share of it from generated facts: no call site names the key of the layer it creates
+  (`no_call_site_names_its_graph_key`), so key uniqueness is dask's own tokenisation of function and arguments.
 -/
 set_option linter.unusedSectionVars false
 set_option linter.unusedVariables false
@@ -378,6 +384,71 @@ theorem scheduled_value_is_denotation {V : Type} (g : DF.Graph V) (s : List (Lis
     (h : DF.run g s (fun _ => none) i = some v) : v = DF.den g i :=
   DF.run_sound g s _ (by intro i v h; simp at h) i v h
 
+/-! ## 6b. several lazy results in one graph: who answers for the graph keys
+
+  Sections 1-6 speak about *one* graph whose tasks are told apart by construction (`DF.Graph` is indexed by task).
+  dask tells tasks apart by their **key**, `(layer name, i, j)`, and evaluates several results together
+  (`dask.compute(a, b)`, `a - b`, one `xr.Dataset`) in the merged dictionary: equal key = same task.
+  `GraphKeys.joint_eval_eq_alone`: if equal keys do stand for equal tasks, every result evaluated together has the
+  value it has alone; `GraphKeys.collision_replaces_a_result`: otherwise not.  A layer gets its name from dask --
+  `funcname(func)-tokenize(func, args, kwargs)`, a hash of everything the block task depends on -- unless the call
+  passes `name=` (the complete key; `token=` is only the readable prefix).  Then uniqueness is the call site's business:
+  `name='normalized_ratio'`, or a token of *some* of the arguments, gives two different calls the same keys. -/
+
+/-- the modules this property's operations live in -/
+def graphModules : List String :=
+  ["slope", "aspect", "curvature", "hillshade", "focal", "convolution", "classify", "multispectral", "perlin", "terrain"]
+
+/-- the layer-creating calls of those modules, as found by the sweep of `facts_dask.graph_key_facts` -/
+def graphSites : List GraphKeyFact := allGraphKeyFacts.filter fun s => graphModules.contains s.module
+
+/-- **no call site names the key of the layer it creates** (generated, re-decided on every run):
+    (1, 2) the `map_overlap` / `map_blocks` call of every operation passes no `name=` and forwards no `**kwargs`
+    (per-operation facts, the parsers that also give depth / boundary / block function);
+    (3) nor does any layer-creating call anywhere in the modules of this property (`map_blocks`, `map_overlap`,
+    `blockwise`, `from_array`, `from_delayed`, `delayed`, hand-made layers -- an independent sweep);
+    (4) the sweep is not blind: it finds the Dask function of every operation described in (1, 2), with the right kind
+    of call, and at least one site in each module.
+    So every key of every graph this library builds is `dask`'s token of the block function and of *all* its
+    arguments: the hypothesis `Faithful` of `joint_results_are_the_single_results` is dask's contract, not the library's. -/
+theorem no_call_site_names_its_graph_key :
+    (allOverlapFacts.all fun f => f.keyName == "" && !f.opaqueKwargs) = true ∧
+    (allBlocksFacts.all fun f => f.keyName == "" && !f.opaqueKwargs) = true ∧
+    (graphSites.all GraphKeyFact.keyFree) = true ∧
+    ((allOverlapFacts.all fun f => graphSites.any fun s => s.site == f.daskQual && s.kind == "map_overlap") &&
+     (allBlocksFacts.all fun f => graphSites.any fun s => s.site == f.daskQual && s.kind == "map_blocks") &&
+     (graphModules.all fun m => graphSites.any fun s => s.module == m)) = true := by
+  refine ⟨?_, ?_, ?_, ?_⟩ <;> decide +kernel
+
+/-- what that buys.  `calls`: any public calls on Dask-backed rasters (same function or different ones, any arguments,
+    any chunkings `blocks c`); each contributes a layer of block tasks `task c` under the name `name c`.  If names are
+    faithful (equal name ⇒ equal block task: dask's tokenisation, since by the theorem above no call site replaces
+    it), then evaluating all of them in ONE graph gives every key of every call the value it has in that call's own
+    graph -- which is the value sections 1-6 equate with the NumPy result. -/
+theorem joint_results_are_the_single_results {C V : Type} (name : C → String)
+    (task : C → Nat × Nat → GraphKeys.Task (String × Nat × Nat) V) (hf : GraphKeys.Faithful name task)
+    (blocks : C → List (Nat × Nat)) (calls : List C) (c : C) (hc : c ∈ calls)
+    (n : Nat) (k : String × Nat × Nat) (v : V)
+    (h : GraphKeys.eval (GraphKeys.layer name task (blocks c) c) n k = some v) :
+    GraphKeys.eval (GraphKeys.merge (calls.map fun c => GraphKeys.layer name task (blocks c) c)) n k = some v :=
+  GraphKeys.joint_layers_eq_alone name task hf blocks calls c hc n k v h
+
+/-- the same for whole graphs (input layers, block layer, trimming, reductions): pairwise agreement on shared keys is all
+    that is needed -/
+theorem joint_graphs_are_the_single_graphs {K V : Type} [BEq K] (gs : List (GraphKeys.Graph K V))
+    (hag : ∀ g₁ ∈ gs, ∀ g₂ ∈ gs, GraphKeys.Agree g₁ g₂) (g : GraphKeys.Graph K V) (hg : g ∈ gs)
+    (n : Nat) (k : K) (v : V) (h : GraphKeys.eval g n k = some v) :
+    GraphKeys.eval (GraphKeys.merge gs) n k = some v :=
+  GraphKeys.joint_eval_eq_alone gs hag g hg n k v h
+
+/-- and a key chosen at the call site from only part of what the task depends on (a constant, a token of the first
+    band, a token that leaves out `target_values`) cannot be faithful once two calls agree on that part and differ in
+    their task -/
+theorem partial_key_is_not_faithful {C A V : Type} (view : C → A) (tok : A → String)
+    (task : C → Nat × Nat → GraphKeys.Task (String × Nat × Nat) V) (c₁ c₂ : C)
+    (hv : view c₁ = view c₂) (hd : task c₁ ≠ task c₂) : ¬ GraphKeys.Faithful (fun c => tok (view c)) task :=
+  GraphKeys.partial_token_not_faithful view tok task c₁ c₂ hv hd
+
 /-! ## 7. non-vacuity -/
 instance : Trig ℚ := ⟨id, id, fun a _ => a, id, id, id, id⟩
 
@@ -425,5 +496,22 @@ def seedingTask : Effects.Summary := {
 example : taskPure seedingTask = false := by decide
 example : Gen.summary_focal__mean_numpy ∈ Gen.taskSummaries ∧ taskPure Gen.summary_aspect__run_numpy = true := by
   constructor <;> decide +kernel
+
+/-- the graph-key facts reject something real: a site that writes its own key (a `token=` prefix is fine) -/
+def namedSite : GraphKeyFact := {
+  module := "multispectral", site := "multispectral._run_normalized_ratio_dask", kind := "map_blocks",
+  nameArg := "'normalized_ratio'", nameFrom := [], tokenArg := "", keyNameArg := "", opaqueKwargs := false }
+def prefixedSite : GraphKeyFact := {
+  module := "focal", site := "focal._mean_dask_numpy", kind := "map_overlap",
+  nameArg := "", nameFrom := [], tokenArg := "'mean'", keyNameArg := "", opaqueKwargs := false }
+example : namedSite.keyFree = false ∧ prefixedSite.keyFree = true := by decide
+/-- the hypothesis of `joint_graphs_are_the_single_graphs` is needed (two one-task graphs under one key: alone 1 and 2,
+    together 1 and 1), and satisfiable: a naming that is injective on calls is faithful -/
+example : GraphKeys.eval GraphKeys.gTwo 1 0 = some 2 ∧ GraphKeys.eval (GraphKeys.merge [GraphKeys.gOne, GraphKeys.gTwo]) 1 0 = some 1 :=
+  ⟨GraphKeys.collision_replaces_a_result.2.1, GraphKeys.collision_replaces_a_result.2.2⟩
+example (task : Bool → Nat × Nat → GraphKeys.Task (String × Nat × Nat) Nat) :
+    GraphKeys.Faithful (fun c : Bool => if c then "ndvi-1f3a" else "ndvi-77c0") task := by
+  intro c₁ c₂ h
+  cases c₁ <;> cases c₂ <;> first | rfl | (exfalso; revert h; decide)
 
 end XrsVerif.C01
